@@ -95,9 +95,9 @@ def _run(tier, seed, replay=None):
         remote = {"tlc": {"spec": "RemoteUnit.tla", "cfg": "RemoteUnit.cfg", "generated": rr.generated, "distinct": rr.distinct, "wall_s": round(rr.wall, 1)},
                   "liveness": {"cfg": "RemoteUnit_live.cfg", "distinct": rl.distinct, "properties": ["OutputEventuallyComplete", "CancelEventuallyReachesE"]},
                   "variants_violated": rv, "witnesses": rw}
-    rec = vlib.build_receptor()
+    rec = vlib.private_copy(vlib.build_receptor(), wd)   # daemons re-execute this path; other checks rebuild .work/bin
     vd = vlib.build_harness("vd")
-    inproc = vlib.build_harness("receptor-inproc")   # cmd/receptor-cl + one in-process work type on BaseWorkUnit
+    inproc = vlib.private_copy(vlib.build_harness("receptor-inproc"), wd)   # cmd/receptor-cl + one in-process work type on BaseWorkUnit
     if replay:
         seed = int(json.load(open(replay))["replay"].get("seed", seed))
         if seed >= 100:
@@ -150,6 +150,7 @@ def _run(tier, seed, replay=None):
             else:
                 raise vlib.Inconclusive("TLC failed on the remote protocol traces (exit %s):\n%s" % (t.exit, t.output[-2000:]))
     c = res["counters"]
+    v.notes.extend(res.get("notes") or [])   # e.g. scenario set-ups that had to be repeated, with the daemon's own last words
     if c.get("cancel_race_completion_won", 0) == 0:
         v.notes.append("cancel-vs-completion: the completion branch was not taken in %d attempts" % c.get("cancel_race_attempts", 0))
     cov = {
